@@ -24,7 +24,7 @@ func init() { runners["C17"] = runC17 }
 func runC17(seed int64, n int, dir string, tier string) *Report {
 	g := gen.New(seed)
 	rep := NewReport("C17", seed)
-	rep.Rule = "correspondence: n random sequential histories of Register/Unregister/Get on the reader and the writer driver registries (3 private formats, 3 drivers) against the registry model; oracle: the race-detector build (go build -race) of a stress program running writes, parses, JSON and tag-value detection, constructor calls with options and registry operations from 16 goroutines, every result compared with the same call made sequentially, stderr scanned for data-race reports; non-trivial = history with at least one registration followed by a lookup; distinct by hash"
+	rep.Rule = "correspondence: n random sequential histories of Register/Unregister/Get on the reader and the writer driver registries (3 private formats, 3 drivers) against the registry model; oracle: the race-detector build (go build -race) of a stress program running writes, parses, JSON and tag-value detection, constructor calls with options and registry operations from 16 goroutines, every result compared with the same call made sequentially, stderr scanned for data-race reports; non-trivial = history with at least one registration followed by a lookup; distinct by hash; plus 150 fresh-process runs (1500 in the thorough tier; mostly the plain build, every 25th the race-detector build) whose very first use of the reader and writer packages is made by 64 goroutines released together (lazy initialisation)"
 	cf := &CasesFile{Imports: "Model.Base Model.Conc Corr.CheckC17", Type: "case17", Eval: "mismatches"}
 	fm := []formats.Format{"text/verif-r0", "text/verif-r1", "text/verif-r2"}
 	for h := 0; h < n; h++ {
@@ -143,6 +143,47 @@ func runC17(seed int64, n int, dir string, tier string) *Report {
 			}
 			for _, p := range res.Problems {
 				rep.Fail(Failure{What: p.What, Detail: p.Detail, Input: map[string]any{"stress_seed": seed + int64(r)}})
+			}
+		}
+	}
+	// first use of the packages made concurrently, in fresh processes (lazy initialisation)
+	plain := filepath.Join(filepath.Dir(exe), "stress-plain")
+	if _, err := os.Stat(plain); err != nil {
+		plain = stress
+	}
+	if _, err := os.Stat(plain); err == nil {
+		// the window is a few microseconds wide: many short runs of the plain build (about 50 ms each), a
+		// few of the race-detector build
+		runs := 150
+		if tier == "thorough" {
+			runs = 1500
+		}
+		for r := 0; r < runs; r++ {
+			bin := plain
+			if r%25 == 0 {
+				bin = stress
+			}
+			cmd := exec.Command(bin, "-mode", "firstuse", "-workers", "64")
+			cmd.Env = append(os.Environ(), "GORACE=halt_on_error=0")
+			var so, se bytes.Buffer
+			cmd.Stdout, cmd.Stderr = &so, &se
+			err := cmd.Run()
+			rep.OracleEvals++
+			var res struct {
+				Problems []struct{ What, Detail string }
+				Calls    map[string]int
+			}
+			_ = json.Unmarshal(so.Bytes(), &res)
+			for k, v := range res.Calls {
+				rep.Distribution["firstuse:"+k] += v
+			}
+			if strings.Contains(se.String(), "WARNING: DATA RACE") {
+				rep.Fail(Failure{What: "the race detector reported a data race during a concurrent first use of the reader/writer packages", Detail: firstRace(se.String()), Input: map[string]any{"first_use_run": r}})
+			} else if strings.Contains(se.String(), "fatal error") || (err != nil && len(res.Calls) == 0) {
+				rep.Fail(Failure{What: "a concurrent first use aborted", Detail: tail(se.String(), 1500), Input: map[string]any{"first_use_run": r}})
+			}
+			for _, p := range res.Problems {
+				rep.Fail(Failure{What: p.What, Detail: p.Detail, Input: map[string]any{"first_use_run": r, "goroutines": 64}})
 			}
 		}
 	}
